@@ -40,12 +40,18 @@ def rule_golay(repo: Repo, rep: Report, thorough: bool) -> int:
     n = 0
     lit = None
     for st in stmts_of(fi.body):
-        if isinstance(st, ast.Assign) and unparse(st.targets[0]) == "parity_submatrix" and isinstance(st.value, ast.Call) and call_name(st.value) == "torch.tensor":
+        # the literal table, under whatever name: the first torch.tensor(<12 x 11 literal>) of the function
+        if isinstance(st, ast.Assign) and isinstance(st.targets[0], ast.Name) and isinstance(st.value, ast.Call) and call_name(st.value) == "torch.tensor" and st.value.args:
             try:
-                lit = const_value(st.value.args[0])
+                cand = const_value(st.value.args[0])
             except ValueError:
-                lit = None
-            break
+                cand = None
+            if isinstance(cand, list) and len(cand) == 12 and all(isinstance(r, list) and len(r) == 11 for r in cand):
+                lit = cand
+                break
+            if unparse(st.targets[0]) == "parity_submatrix":
+                lit = cand
+                break
     if lit is None or len(lit) != 12 or any(len(r) != 11 for r in lit):
         rep.undecided("GOLAY", fi, "literal parity submatrix", "not a 12x11 literal")
         return 1
@@ -94,6 +100,20 @@ def rule_golay(repo: Repo, rep: Report, thorough: bool) -> int:
             ext_col = None
         if not (isinstance(ext_col, list) and len(ext_col) == 12 and all(isinstance(c, (int, float)) for c in ext_col)):
             ext_col = None
+    if ext_col is None:
+        # whatever the locals are called: the whole function evaluated with extended=True; the last column of the result is the extension
+        from ..frag import FragRaise, FragReturn, run_fragment
+
+        try:
+            run_fragment(fi.body, {"extended": True, "dtype": "torch.float32", "device": None}, {}, materialise=True, max_steps=400000)
+            whole = None
+        except FragReturn as ret:
+            whole = ret.value
+        except (Unfoldable, FragRaise, TypeError, IndexError, ValueError):
+            whole = None
+        if isinstance(whole, list) and len(whole) == 12 and all(isinstance(r, list) and len(r) == 12 and all(isinstance(c, (int, float)) and not isinstance(c, bool) for c in r) for r in whole) and [[int(c) for c in r[:11]] for r in whole] == [[int(x) for x in r] for r in lit]:
+            ext_col = [r[11] for r in whole]
+            col_expr = col_expr if col_expr is not None else ast.parse("last_column_of_the_returned_matrix", mode="eval").body
     if ext_col is None:
         rep.undecided("GOLAY", fi, "extension column", f"expression not evaluable: {unparse(col_expr) if col_expr is not None else '?'}")
         return n + 1
@@ -453,6 +473,8 @@ def rule_extension(repo: Repo, rep: Report) -> int:
             continue
         elts = cat[0].value.args[0].elts if isinstance(cat[0].value.args[0], (ast.List, ast.Tuple)) else []
         col = elts[-1] if elts else None
+        # the matrix that is extended is the first operand of the concatenation, whatever it is called
+        base_name = elts[0].id if elts and isinstance(elts[0], ast.Name) else "parity_submatrix"
         # dependence closure inside the block
         defs = {unparse(s.targets[0]): s.value for s in blocks[0].body if isinstance(s, ast.Assign)}
         seen = set()
@@ -460,7 +482,7 @@ def rule_extension(repo: Repo, rep: Report) -> int:
         def depends(e: ast.AST) -> bool:
             for x in ast.walk(e):
                 if isinstance(x, ast.Name):
-                    if x.id == "parity_submatrix":
+                    if x.id == base_name:
                         return True
                     if x.id in defs and x.id not in seen:
                         seen.add(x.id)
